@@ -83,6 +83,41 @@ func (s *cliScn) cfgEnv() []string {
 	return env
 }
 
+// cfgEnvShadowed: the same effective gitconfig state, realised with an EARLIER definition of every setting that
+// carries another value (git reports both, in this order; a single-valued setting has the value of its last
+// definition, which is what `git config --get` answers).
+func (s *cliScn) cfgEnvShadowed() []string {
+	var kv [][2]string
+	add := func(k, v string, decoys ...string) {
+		if v == "absent" {
+			return
+		}
+		d := decoys[0]
+		if d == v {
+			d = decoys[1]
+		}
+		kv = append(kv, [2]string{k, d})
+	}
+	add("sizer.threshold", s.Cfg.Thr, "17", "18")
+	add("sizer.names", s.Cfg.Names, "none", "full")
+	add("sizer.jsonVersion", s.Cfg.Jv, "2", "1")
+	add("sizer.progress", s.Cfg.Prog, "false", "true")
+	if len(kv) == 0 {
+		return nil
+	}
+	real := s.cfgEnv()[1:]
+	env := []string{fmt.Sprintf("GIT_CONFIG_COUNT=%d", 2*len(kv))}
+	for i, p := range kv {
+		env = append(env, fmt.Sprintf("GIT_CONFIG_KEY_%d=%s", i, p[0]), fmt.Sprintf("GIT_CONFIG_VALUE_%d=%s", i, p[1]))
+	}
+	for i := 0; i < len(kv); i++ {
+		k := strings.SplitN(real[2*i], "=", 2)[1]
+		v := strings.SplitN(real[2*i+1], "=", 2)[1]
+		env = append(env, fmt.Sprintf("GIT_CONFIG_KEY_%d=%s", len(kv)+i, k), fmt.Sprintf("GIT_CONFIG_VALUE_%d=%s", len(kv)+i, v))
+	}
+	return env
+}
+
 // c14Fixture: a repository with rows at several levels of concern (tag chain of 32, octopus merge, deep paths).
 func c14Fixture() cases.ScanCase {
 	var g model.Graph
@@ -148,7 +183,7 @@ func (e *scanEnv) c14Exec(repoDir, home string, args []string, env []string) c14
 
 func checkC14(c *Ctx) {
 	c.Ev.Level = "model_checking"
-	c.Ev.Rule = "Cli.tla: effective settings as a fold over the argument list with gitconfig consulted iff no option of the family is given; CliMC: all argument sequences of length <=2(3) per family (threshold/verbose/no-verbose/critical with and without =value, names, json/json-version, progress/no-progress) x all gitconfig states (absent, valid values, invalid value), plus mixed scenarios; laws CanonicalIsFixedPoint and ConfigIgnoredWhenGiven; every scenario is run on the real binary twice - (gitconfig, args) and (no gitconfig, canonical args from TLC) - stdout must be byte-identical, progress alike, or both must fail when the spec says error; documented equivalent spellings compared likewise; distinct = distinct (args, gitconfig)"
+	c.Ev.Rule = "Cli.tla: effective settings as a fold over the argument list with gitconfig consulted iff no option of the family is given; CliMC: all argument sequences of length <=2(3) per family (threshold/verbose/no-verbose/critical with and without =value, names, json/json-version, progress/no-progress) x all gitconfig states (absent, valid values, invalid value), plus mixed scenarios; laws CanonicalIsFixedPoint and ConfigIgnoredWhenGiven; every scenario is run on the real binary twice - (gitconfig, args) and (no gitconfig, canonical args from TLC) - stdout must be byte-identical, progress alike, or both must fail when the spec says error; a third run realises the same gitconfig state with an earlier definition of every setting carrying another value (the last definition is the value git reports): same outcome; documented equivalent spellings compared likewise; distinct = distinct (args, gitconfig)"
 	env := newScanEnv(c, true, false)
 	maxArgs := 2
 	if !quick(c) {
@@ -201,7 +236,7 @@ func checkC14(c *Ctx) {
 	if _, err := materialiseCase(repoDir, &sc); err != nil {
 		Infra("c14 fixture: %v", err)
 	}
-	type pair struct{ a, b c14Run }
+	type pair struct{ a, b, sh c14Run }
 	results := make([]pair, len(scns))
 	var wg sync.WaitGroup
 	sem := make(chan struct{}, 16)
@@ -215,6 +250,11 @@ func checkC14(c *Ctx) {
 			results[i].a = env.c14Exec(repoDir, dir, renderArgs(s.Args), s.cfgEnv())
 			if !s.Err {
 				results[i].b = env.c14Exec(repoDir, dir, renderArgs(s.Canon), nil)
+			}
+			if sh := s.cfgEnvShadowed(); sh != nil {
+				results[i].sh = env.c14Exec(repoDir, dir, renderArgs(s.Args), sh)
+			} else {
+				results[i].sh = results[i].a
 			}
 		}(i)
 	}
@@ -236,6 +276,8 @@ func checkC14(c *Ctx) {
 			why = "output_differs_from_canonical_command_line"
 		case !s.Err && r.a.Progress != r.b.Progress:
 			why = "progress_differs_from_canonical_command_line"
+		case (r.sh.Exit == 0) != (r.a.Exit == 0) || r.sh.Stdout != r.a.Stdout || r.sh.Progress != r.a.Progress:
+			why = "earlier_definition_of_a_setting_takes_effect"
 		}
 		if why != "" {
 			c.AddViolation(Violation{Predicate: why, Spec: "Cli!Effective / Canonical", Kind: "cli14",
@@ -483,11 +525,16 @@ func replayC14(c *Ctx, raw json.RawMessage) bool {
 	}
 	s := rp.Input.Scenario
 	a := env.c14Exec(repoDir, dir, renderArgs(s.Args), s.cfgEnv())
+	shadowed := false
+	if sh := s.cfgEnvShadowed(); sh != nil {
+		x := env.c14Exec(repoDir, dir, renderArgs(s.Args), sh)
+		shadowed = (x.Exit == 0) != (a.Exit == 0) || x.Stdout != a.Stdout || x.Progress != a.Progress
+	}
 	if s.Err {
-		return a.Exit == 0 || a.Stdout != ""
+		return a.Exit == 0 || a.Stdout != "" || shadowed
 	}
 	b := env.c14Exec(repoDir, dir, renderArgs(s.Canon), nil)
-	return a.Exit != 0 || a.Stdout != b.Stdout || a.Progress != b.Progress
+	return a.Exit != 0 || a.Stdout != b.Stdout || a.Progress != b.Progress || shadowed
 }
 
 func init() {
